@@ -535,3 +535,18 @@ def abs_spec(spec):
 
 def abs_path(p):
     return tuple(abs_key(e) for e in p)
+
+
+def __getattr__(name):
+    """namedtuple classes are created on demand; a fresh process unpickling a treespec asks for them by name"""
+    import re
+    m = re.fullmatch(r'NTS?(\d+)_(\d+)', name)
+    if m:
+        cls, n = int(m.group(1)), int(m.group(2))
+        c = nt_class(cls, n)
+        if c.__name__ == name:
+            return c
+        for b in c.__mro__:
+            if b.__name__ == name:
+                return b
+    raise AttributeError(name)
